@@ -218,6 +218,8 @@ pub struct Scenario {
 pub struct Steer {
     pub ops: Vec<String>,
     pub tail: Option<u8>,
+    /// after the steered program: this many free-running choices drawn from a PRNG with this seed
+    pub free: Option<(usize, u64)>,
 }
 
 impl Scenario {
@@ -236,7 +238,7 @@ impl Scenario {
             "hash_key": self.hash_key.to_string(),
             "history": self.history.iter().map(|h| h.to_json()).collect::<Vec<_>>(),
             "faults": self.faults.iter().map(|f| f.to_json()).collect::<Vec<_>>(),
-            "steer": self.steer.as_ref().map(|s| json!({"ops": s.ops, "tail": s.tail})),
+            "steer": self.steer.as_ref().map(|s| json!({"ops": s.ops, "tail": s.tail, "free": s.free.map(|(n, sd)| json!([n, sd.to_string()]))})),
         })
     }
     pub fn from_json(v: &Value) -> Result<Self, String> {
@@ -260,6 +262,7 @@ impl Scenario {
                 Some(st) if st.is_object() => Some(Steer {
                     ops: st["ops"].as_array().map(|a| a.iter().filter_map(|x| x.as_str().map(|s| s.to_string())).collect()).unwrap_or_default(),
                     tail: st["tail"].as_u64().map(|b| b as u8),
+                    free: st["free"].as_array().and_then(|a| Some((a.first()?.as_u64()? as usize, a.get(1)?.as_str()?.parse::<u64>().ok()?))),
                 }),
                 _ => None,
             },
